@@ -69,14 +69,56 @@ func loadOfParamField(v ssa.Value, prm *ssa.Parameter, field string) bool {
 func RuleKPartChain(c *core.Ctx) {
 	const rule = "K-part-chain"
 	p := c.P
-	fn := p.Func(pkgDate, "NewPartition")
+	ctor := p.Func(pkgDate, "NewPartition")
 	startOf := p.Func(pkgDate, "StartOf")
 	periodT := p.NamedType(pkgDate, "Period")
-	if fn == nil || startOf == nil || periodT == nil || len(fn.Params) != 3 {
-		c.Anchor(rule, "date.NewPartition(period, interval, last) / date.StartOf / date.Period")
+	intervalT := p.NamedType(pkgDate, "Interval")
+	if ctor == nil || startOf == nil || periodT == nil || intervalT == nil {
+		c.Anchor(rule, "date.NewPartition / date.StartOf / date.Period / date.Interval")
 		return
 	}
-	window, interval, last := fn.Params[0], fn.Params[1], fn.Params[2]
+	// the function that builds the periods: NewPartition itself or a helper of the
+	// package it calls — the one with a Period literal inside a loop
+	var fn *ssa.Function
+	for cand := range p.ReachLexical(ctor) {
+		if core.PkgPathOf(cand) != pkgDate || cand == startOf {
+			continue
+		}
+		found := false
+		for _, body := range loopsOf(cand) {
+			for b := range body {
+				for _, ins := range b.Instrs {
+					if al, ok := ins.(*ssa.Alloc); ok && isNamed(al.Type().Underlying().(*types.Pointer).Elem(), periodT) {
+						found = true
+					}
+				}
+			}
+		}
+		if found && (fn == nil || cand.String() < fn.String()) {
+			fn = cand
+		}
+	}
+	if fn == nil {
+		c.Ob(rule, core.FuncName(ctor)+":period construction", ctor.Pos(), core.FuncName(ctor), core.Undecided, "no function reachable from NewPartition builds Period values inside a loop: the construction of the partition has a shape this rule does not know")
+		return
+	}
+	var window, interval, last *ssa.Parameter
+	for _, prm := range fn.Params {
+		switch {
+		case isNamed(prm.Type(), periodT):
+			window = prm
+		case isNamed(prm.Type(), intervalT):
+			interval = prm
+		default:
+			if b, ok := prm.Type().Underlying().(*types.Basic); ok && b.Info()&types.IsInteger != 0 {
+				last = prm
+			}
+		}
+	}
+	if window == nil || interval == nil || last == nil {
+		c.Anchor(rule, "the (window Period, interval Interval, last int) parameters of "+core.FuncName(fn))
+		return
+	}
 	fname := core.FuncName(fn)
 	loops := loopsOf(fn)
 	// the period literal appended inside a loop
@@ -196,22 +238,64 @@ func RuleKPartChain(c *core.Ctx) {
 	ob("boundary: a period starts at StartOf(its end, interval), clipped at the window's start", boundOK,
 		"Start = StartOf(end, interval), replaced by period.Start exactly when it lies before it",
 		why2+": a period can straddle a calendar boundary or start outside the window", l.alloc.Pos())
-	// (cover) exits of the loop
+	// (cover) exits of the loop: the window's start is reached, or a limit that
+	// depends only on `last` and on the number of periods produced so far
 	coverOK, why3 := true, ""
 	var counter *ssa.Phi
 	sawBefore, sawCount, sawLast := false, false, false
+	var periodsPhi *ssa.Phi
+	for _, ins := range l.header.Instrs {
+		if ph, ok := ins.(*ssa.Phi); ok {
+			if sl, ok := ph.Type().Underlying().(*types.Slice); ok && isNamed(sl.Elem(), periodT) {
+				periodsPhi = ph
+			}
+		}
+	}
+	isCount := func(v ssa.Value) bool {
+		if ph, ok := v.(*ssa.Phi); ok && ph.Block() == l.header {
+			if b, ok := ph.Type().Underlying().(*types.Basic); ok && b.Info()&types.IsInteger != 0 {
+				counter = ph
+				return true
+			}
+		}
+		if call, ok := v.(*ssa.Call); ok {
+			if b, ok := call.Call.Value.(*ssa.Builtin); ok && b.Name() == "len" && periodsPhi != nil && call.Call.Args[0] == ssa.Value(periodsPhi) {
+				return true
+			}
+		}
+		return false
+	}
 	classify := func(cond ssa.Value) string {
+		if u, ok := cond.(*ssa.UnOp); ok && u.Op == token.NOT {
+			cond = u.X
+		}
 		switch x := cond.(type) {
 		case *ssa.Call:
 			if call := isTimeMethod(x, "Before"); call != nil && call.Call.Args[0] == l.end && loadOfParamField(call.Call.Args[1], window, "Start") {
 				return "before"
 			}
 		case *ssa.BinOp:
-			if ph, ok := x.X.(*ssa.Phi); ok && x.Op == token.GEQ && x.Y == ssa.Value(last) && ph.Block() == l.header {
-				counter = ph
+			switch x.Op {
+			case token.GEQ, token.GTR, token.LSS, token.LEQ:
+			default:
+				return ""
+			}
+			ops := []ssa.Value{x.X, x.Y}
+			cnt, lst, zero := false, false, false
+			for _, o := range ops {
+				switch {
+				case isCount(o):
+					cnt = true
+				case o == ssa.Value(last):
+					lst = true
+				case constInt(o, 0):
+					zero = true
+				}
+			}
+			if cnt && lst {
 				return "count"
 			}
-			if x.X == ssa.Value(last) && x.Op == token.GTR && constInt(x.Y, 0) {
+			if lst && zero {
 				return "last"
 			}
 		}
@@ -222,42 +306,29 @@ func RuleKPartChain(c *core.Ctx) {
 		if !ok {
 			continue
 		}
-		exitsOnTrue := !l.body[b.Succs[0]]
-		exitsOnFalse := !l.body[b.Succs[1]]
-		if !exitsOnTrue && !exitsOnFalse {
-			continue
-		}
+		exits := !l.body[b.Succs[0]] || !l.body[b.Succs[1]]
 		kind := classify(iff.Cond)
-		if exitsOnFalse || kind == "" {
-			coverOK, why3 = false, "the loop is left on "+describeValue(p, iff.Cond)
-			continue
-		}
-		if kind == "before" {
+		if kind == "before" && exits {
 			sawBefore = true
 			continue
 		}
-		// one half of `counter >= last && last > 0`: the other half is the test whose true edge leads here
-		other := ""
-		for d := range l.body {
-			dif, ok := d.Instrs[len(d.Instrs)-1].(*ssa.If)
-			if !ok || d == b {
-				continue
-			}
-			if d.Succs[0] == b && len(b.Preds) == 1 {
-				other = classify(dif.Cond)
-			}
+		if kind == "count" {
+			sawCount = true
+			continue
 		}
-		if (kind == "last" && other == "count") || (kind == "count" && other == "last") {
-			sawCount, sawLast = true, true
-		} else {
-			coverOK, why3 = false, "the loop is left on "+describeValue(p, iff.Cond)+" alone"
+		if kind == "last" {
+			sawLast = true
+			continue
+		}
+		if exits {
+			coverOK, why3 = false, "the loop is left on "+describeValue(p, iff.Cond)
 		}
 	}
 	if coverOK && !sawBefore {
 		coverOK, why3 = false, "no exit test end.Before(period.Start)"
 	}
 	if coverOK && sawCount != sawLast {
-		coverOK, why3 = false, "the test on the number of periods is not `counter >= last && last > 0`"
+		coverOK, why3 = false, "the limit on the number of periods does not combine a test of `last` against zero with a comparison of the number of periods produced against `last`"
 	}
 	if coverOK && counter != nil {
 		for i, e := range counter.Edges {
@@ -279,7 +350,7 @@ func RuleKPartChain(c *core.Ctx) {
 	revOK := false
 	core.EachInstr(fn, func(ins ssa.Instruction) {
 		if call, ok := ins.(*ssa.Call); ok {
-			if callee := call.Call.StaticCallee(); callee != nil && callee.Pkg != nil && callee.Pkg.Pkg.Path() == "slices" && core.BaseName(callee) == "Reverse" {
+			if callee := call.Call.StaticCallee(); callee != nil && core.PkgPathOf(core.OriginOf(callee)) == "slices" && core.BaseName(callee) == "Reverse" {
 				revOK = true
 			}
 		}
@@ -345,13 +416,15 @@ func RuleKPartChain(c *core.Ctx) {
 		}
 	}
 	stored := false
-	core.EachInstr(fn, func(ins ssa.Instruction) {
-		if st, ok := ins.(*ssa.Store); ok {
-			if fa, ok := st.Addr.(*ssa.FieldAddr); ok && core.FieldOf(fa) == periodsF {
-				stored = true
+	for _, f := range []*ssa.Function{fn, ctor} {
+		core.EachInstr(f, func(ins ssa.Instruction) {
+			if st, ok := ins.(*ssa.Store); ok {
+				if fa, ok := st.Addr.(*ssa.FieldAddr); ok && core.FieldOf(fa) == periodsF {
+					stored = true
+				}
 			}
-		}
-	})
+		})
+	}
 	ob("order: the periods, produced latest first, are reversed before they are stored", revOK && stored,
 		"a swap loop (i up, j down, i < j) over the slice precedes the store into Partition.periods",
 		"the periods are generated backwards from the window's end and no reversal was found before they are stored: StartDates/EndDates and the binary search of Align need ascending periods", fn.Pos())
